@@ -12,7 +12,9 @@ RULE = ("random PWLCalibration layers (2-6 strictly increasing dyadic keypoints 
         "single-column and per-unit inputs, cyclic (including cyclic layers with exactly 2 keypoints, i.e. a one-row "
         "kernel, built with kernel_initializer='zeros'), split_outputs, impute_missing by value / by is_missing tensor "
         "(flags 0, 1 and non-binary values 0.25, 0.5, 2, -0.5) "
-        "with learned or fixed missing output, tensor and list input forms, 'fixed' keypoints in float64 and "
+        "with learned or fixed missing output, tensor and list input forms, 'fixed' keypoints in float64 and - about "
+        "a fifth of them, ~10% of all cases, class suffix _f32 - in float32, the layer's DEFAULT dtype (kernel "
+        "magnitude 4, no 2^-22 keypoint gap, tolerance 1e-5), "
         "'learned_interior' keypoints (initial and assigned logits) in float32, dyadic kernels of five classes) "
         "called on a batch mixing inputs ON keypoints, between, just/far outside (up to +-1e6), equal to "
         "missing_input_value; rejected calls (ValueError on the layer, None in the model): [x, is_missing] or [x] "
@@ -35,7 +37,8 @@ TRUSTED = [
     "softmax is an oracle (Section variable: same length, positive entries, sum 1); for execution its output is "
     "captured from tf.nn.softmax on the layer's logits and the three hypotheses are checked numerically per case",
     "tf.cast(float -> int32) is modelled as truncation toward zero; tf.one_hot as the 0/1 indicator row",
-    "tie: real layers (float64 for fixed keypoints; float32 - and float64 where the code path accepts it - for "
+    "tie: real layers (float64, and float32 with tolerance 1e-5 carried by the case, for fixed keypoints; float32 "
+    "- and float64 where the code path accepts it - for "
     "learned_interior; float32 and float64 for categorical) with assigned dyadic weights; call results, keypoints_inputs() and "
     "keypoints_outputs() compared in Coq; learned layers are compared in two stages (softmax -> tables, "
     "tables -> outputs) so that float32 rounding of the keypoints is not amplified by short segments",
@@ -80,12 +83,13 @@ def _kernel(rng, rows, units, klass, mag):
 
 def _gen_pwl(rng):
   learned = rng.random() < 0.3
+  fixed32 = (not learned) and rng.random() < 0.19
   n = rng.randint(2, 5 if learned else 6)
   k0 = tfimpl.dy(rng, -4, 4, 4)
   ks = [k0]
   # one in eight fixed-keypoint layers has a pair of keypoints 2^-22 apart (a length "guard" such as
   # max(length, 1e-6) changes the function there); all values stay dyadic and exact in float64
-  tiny_at = rng.randrange(n - 1) if (not learned and rng.random() < 0.125) else None
+  tiny_at = rng.randrange(n - 1) if (not learned and not fixed32 and rng.random() < 0.125) else None
   for j in range(n - 1):
     ks.append(ks[-1] + (2.0 ** -22 if j == tiny_at else rng.choice(GAPS)))
   units = rng.choice([1, 1, 2, 3])
@@ -94,8 +98,11 @@ def _gen_pwl(rng):
   # the default initializer rejects that shape, so such layers are built with kernel_initializer="zeros"
   cyclic = rng.random() < (0.3 if n >= 3 else 0.4)
   klass = rng.choice(["random", "random", "increasing", "decreasing", "flat", "spike"])
-  mag = 4.0 if learned else 8.0
+  mag = 4.0 if (learned or fixed32) else 8.0
   kernel = _kernel(rng, n - (1 if cyclic else 0), units, klass, mag)
+  if fixed32:
+    # a few 2^-12 on top of the 1/8 grid: exact in float32, not in float16 / bfloat16
+    kernel = [[v + rng.choice([0, 0, 1, -1, 3, -5]) * 2.0 ** -12 for v in row] for row in kernel]
   mode = rng.choice(["none", "none", "none", "value", "value", "flag", "flag", "both"])
   impute = mode != "none"
   miv = None
@@ -115,7 +122,7 @@ def _gen_pwl(rng):
     form = rng.choice(["tensor", "tensor", "list1"])
   else:
     form = "list2"
-  ldtype = rng.choice(["float64", "float64", "float32"]) if learned else "float64"
+  ldtype = rng.choice(["float64", "float64", "float32"]) if learned else ("float32" if fixed32 else "float64")
   logits = None
   if learned and rng.random() < 0.7:
     logits = [[tfimpl.dy(rng, -1.5, 1.5, 4) for _ in range(n - 1)] for _ in range(units)]
@@ -285,14 +292,17 @@ def _learned_f64_supported(tf, tfl):
 
 def _eval_pwl(tf, tfl, d):
   learned = d["learned"]
-  f32 = learned and (d.get("dtype", "float32") == "float32" or
-                     not (REQUIRE_LEARNED_F64 or _learned_f64_supported(tf, tfl)))
+  if learned:
+    f32 = d.get("dtype", "float32") == "float32" or not (REQUIRE_LEARNED_F64 or _learned_f64_supported(tf, tfl))
+  else:
+    f32 = d.get("dtype", "float64") == "float32"
   dt = np.float32 if f32 else np.float64
   units, cols, n = d["units"], d["cols"], len(d["ks"])
   # Python-side predicate tolerance. In float32 the reference is rebuilt from the REPORTED keypoints, whose
   # rounding (1 ulp of a value <= 20) is amplified by 1/length (>= 1% of the range) times the height (<= 16
   # for a cyclic closing height): up to ~8e-4. The in-Coq comparison works stage-wise and keeps 1e-5.
-  tol = Fraction(5, 1000) if f32 else Fraction(1, 10**9)
+  # Fixed keypoints are exact in float32 (multiples of 1/4): only the arithmetic of the call rounds, 1e-5 relative.
+  tol = (Fraction(5, 1000) if learned else Fraction(1, 10**5)) if f32 else Fraction(1, 10**9)
   layer = tfl.layers.PWLCalibration(
       input_keypoints=d["ks"], units=units, dtype="float32" if f32 else "float64",
       is_cyclic=d["cyclic"], impute_missing=d["impute"], missing_input_value=d["miv"],
@@ -308,6 +318,9 @@ def _eval_pwl(tf, tfl, d):
   kp_in = layer.keypoints_inputs().numpy()    # [n, units]
   kp_out = layer.keypoints_outputs().numpy()  # [n, units]
   fail = None
+  if layer.kernel.dtype.base_dtype.name != np.dtype(dt).name or kp_out.dtype != np.dtype(dt):
+    fail = "layer built with dtype=%s has a %s kernel and reports %s keypoint outputs" % (
+        np.dtype(dt).name, layer.kernel.dtype.base_dtype.name, kp_out.dtype.name)
   if kp_in.shape != (n, units) or kp_out.shape != (n, units):
     return Case(d, coq=None, klass="pwl_bad_keypoint_shape",
                 pred_fail="keypoints_inputs()/keypoints_outputs() have shapes %r/%r, not [num_keypoints=%d, units=%d]"
@@ -427,7 +440,7 @@ def _eval_pwl(tf, tfl, d):
       cqm(kp_in.tolist()) + " " + cqm(kp_out.tolist()))
   coq = None
   if not learned:
-    coq = "PwlFixed %s %s %s" % (cnat(units), cql(d["ks"]), common_tail)
+    coq = "PwlFixed %s %s %s %s" % ("tol32" if f32 else "tol64", cnat(units), cql(d["ks"]), common_tail)
   elif out is not None:
     sm = tf.nn.softmax(layer.interpolation_logits, axis=1).numpy()
     # oracle hypotheses, numerically
@@ -448,6 +461,8 @@ def _eval_pwl(tf, tfl, d):
         ("miss" + ("val" if d["miv"] is not None and d["ms"] is None else "flag")) if d["impute"] else "nomiss",
         "_split" if d["split"] and units > 1 else "",
         "_1e6" if np.abs(x).max() >= 1e5 else "")
+  if f32 and not learned:
+    klass += "_f32"
   return Case(d, coq=coq, pred_fail=fail, nontrivial=(between or n >= 3) and d["err"] is None, klass=klass,
               info={"impl_output": out, "inputs": x.tolist(), "keypoints_inputs": kp_in.tolist(),
                     "keypoints_outputs": kp_out.tolist()})
